@@ -100,14 +100,14 @@ func execRules(h *vh.H, op string) string {
 	valToks := strings.Fields(parts[1])
 	h.Count("rules.kind." + spec.Kind + map[bool]string{true: ".array", false: ""}[spec.Arr] + map[bool]string{true: ".map", false: ""}[spec.Map])
 
-	file, err := compileJ5s(FileText(nil, []*Spec{spec}))
+	file, err := compileJ5s(RulesFileText(spec))
 	if err != nil {
 		h.Count("rules.compile-err")
 		if admissible(spec) {
 			// C07 territory, not ours: counted, not judged here
 			h.Count("rules.compile-err.admissible")
 			if os.Getenv("RULESH_DEBUG") != "" {
-				fmt.Fprintln(os.Stderr, "compile error:", err, "\n", FileText(nil, []*Spec{spec}))
+				fmt.Fprintln(os.Stderr, "compile error:", err, "\n", RulesFileText(spec))
 			}
 		}
 		return "err"
@@ -281,6 +281,9 @@ func execSchema(h *vh.H, op string) string {
 		return "bad-op"
 	}
 	h.Count("schema.root." + root.Kind)
+	if len(segs)-1 >= 11 {
+		h.Count("schema.root.wide(>=11 properties)")
+	}
 	var specs []*Spec
 	for _, seg := range segs[1:] {
 		s, err := DecodeSpec(strings.Fields(seg))
@@ -301,6 +304,9 @@ func execSchema(h *vh.H, op string) string {
 				form += ".some-option-desc"
 			}
 			h.Count("schema.enum.decl." + form)
+			if len(s.EOpts) >= 11 {
+				h.Count("schema.enum.wide(>=11 options)")
+			}
 		}
 		if s.Kind == "enum" && s.LR != nil && len(s.LR.DefaultFilters) > 0 {
 			h.Count("schema.enum.default-filters." + map[bool]string{true: "options", false: "not-options(inadmissible)"}[enumFiltersOK(s)])
